@@ -3,14 +3,17 @@ import Hive.Spec.BatchWriter
 /-!
 # Protocol model of kvstore.BatchedWriter (batch_writer.go, batch_collector.go)
 
-As the code is after `fix: BatchedWriter must add to its WaitGroup before starting the writer
-goroutine`.  One atomic step per synchronisation-relevant operation, in source order:
+As the code is after `fix: BatchedWriter must add to its WaitGroup before starting the writer goroutine`
+and `fix: BatchedWriter.Enqueue must count the object before checking running` (`sys`); the Enqueue of
+the code before the second fix is kept as `sysOld` for the `C08_old_*_witness` theorems.  One atomic step per
+synchronisation-relevant operation, in source order:
 
 * **Enqueue(o)** (`PPc`): `autoStartOnce.Do` (other callers block while the first runs the body) whose body
   is `if !running { startBatchWriter() }` = lock `startStopMutex`; `if !running { running.Store(true);
-  writeWg.Add(1); go runBatchWriter() }`; unlock.  Then `running.Load()` (return if false) — *verif yield
-  point* — `object.BatchWriteScheduled()` (the object's flag test-and-set; return if it was set),
-  `scheduledCount.Add(1)`, `batchQueue <- object` (blocks while the bounded queue is full).
+  writeWg.Add(1); go runBatchWriter() }`; unlock.  Then `scheduledCount.Add(1)`, `running.Load()` (if false:
+  `scheduledCount.Add(-1)`, return) — *verif yield point* — `object.BatchWriteScheduled()` (the object's flag
+  test-and-set; if it was set: `scheduledCount.Add(-1)`, return), `batchQueue <- object` (blocks while the
+  bounded queue is full).  Old code: `running.Load()`, yield point, flag, `scheduledCount.Add(1)`, send.
 * **StopBatchWriter** (`SPc`): lock; `running.Load()`; `running.Store(false)`; `writeWg.Wait()`; unlock.
 * **Flush**: `running.Load()`; non-blocking send on the 1-buffered flush channel.
 * **runBatchWriter** (`WPc`; there is one writer goroutine, its locals live in the shared state): loop
@@ -31,7 +34,7 @@ open Hive.Conc Hive.Spec.BatchWriter
 
 inductive PPc
   | idle | onceChk | body | startLock | startLoad | startStore | startAdd | startGo | startUnlock
-  | onceEnd | chkRun | cas | inc | send | ret
+  | onceEnd | inc | chkRun | cas | send | undo | ret
   deriving DecidableEq, Repr
 
 inductive SPc
@@ -81,8 +84,7 @@ structure St where
   added : Bool := false           -- writeWg.Add(1) executed
   stopped : Bool := false         -- some Stop executed running.Store(false)
   waited : Bool := false          -- that Stop passed writeWg.Wait()
-  win : Nat := 0                  -- producers between their running check and their counter increment
-  raced : Bool := false           -- Stop cleared `running` while a producer was in that window
+  win : Nat := 0                  -- producers between a successful running check and the end of their queue send
   rst : Nat → Nat := fun _ => 0   -- resets per object
   snt : Nat → Nat := fun _ => 0   -- queue sends per object
   rcv : Nat → Nat := fun _ => 0   -- queue receives per object
@@ -104,7 +106,7 @@ def stepProd (s : St) (id : Nat) (pc : PPc) (cur : Nat) (script : List Nat) : Li
     | o :: rest => [(emit (.enqCall id o) { s with ver := upd s.ver o (s.ver o + 1) }, .prod id .onceChk o rest)]
   | .onceChk =>
     if s.once = 0 then [({ s with once := 1 }, .prod id .body cur script)]
-    else if s.once = 3 then [(s, .prod id .chkRun cur script)]
+    else if s.once = 3 then [(s, .prod id .inc cur script)]
     else []
   | .body =>
     if s.running then [({ s with once := 2 }, .prod id .onceEnd cur script)]
@@ -117,19 +119,43 @@ def stepProd (s : St) (id : Nat) (pc : PPc) (cur : Nat) (script : List Nat) : Li
   | .startAdd => [({ s with wg := s.wg + 1, added := true }, .prod id .startGo cur script)]
   | .startGo => [({ s with spawned := true }, .prod id .startUnlock cur script)]
   | .startUnlock => [({ s with mu := false }, .prod id .onceEnd cur script)]
-  | .onceEnd => [({ s with once := 3 }, .prod id .chkRun cur script)]
+  | .onceEnd => [({ s with once := 3 }, .prod id .inc cur script)]
+  | .inc => [({ s with count := s.count + 1 }, .prod id .chkRun cur script)]
   | .chkRun =>
     if s.running then [(emit (.hook id) { s with win := s.win + 1 }, .prod id .cas cur script)]
-    else [(s, .prod id .ret cur script)]
+    else [(s, .prod id .undo cur script)]
   | .cas =>
-    if s.flag cur then [(emit (.schedDup cur) { s with win := s.win - 1 }, .prod id .ret cur script)]
+    if s.flag cur then [(emit (.schedDup cur) { s with win := s.win - 1 }, .prod id .undo cur script)]
+    else [(emit (.schedNew cur) { s with flag := upd s.flag cur true }, .prod id .send cur script)]
+  | .send =>
+    if s.queue.length < s.qsize then
+      [({ s with queue := s.queue ++ [cur], snt := upd s.snt cur (s.snt cur + 1), win := s.win - 1 },
+        .prod id .ret cur script)]
+    else []
+  | .undo => [({ s with count := s.count - 1 }, .prod id .ret cur script)]
+  | .ret => [(emit (.enqRet id cur) s, .prod id .idle cur script)]
+
+/-- Enqueue as it was before `fix: BatchedWriter.Enqueue must count the object before checking running`:
+running check, yield point, flag test-and-set, counter increment, send. -/
+def stepProdOld (s : St) (id : Nat) (pc : PPc) (cur : Nat) (script : List Nat) : List (St × Thread) :=
+  match pc with
+  | .onceChk =>
+    if s.once = 0 then [({ s with once := 1 }, .prod id .body cur script)]
+    else if s.once = 3 then [(s, .prod id .chkRun cur script)]
+    else []
+  | .onceEnd => [({ s with once := 3 }, .prod id .chkRun cur script)]
+  | .chkRun =>
+    if s.running then [(emit (.hook id) s, .prod id .cas cur script)] else [(s, .prod id .ret cur script)]
+  | .cas =>
+    if s.flag cur then [(emit (.schedDup cur) s, .prod id .ret cur script)]
     else [(emit (.schedNew cur) { s with flag := upd s.flag cur true }, .prod id .inc cur script)]
-  | .inc => [({ s with count := s.count + 1, win := s.win - 1 }, .prod id .send cur script)]
+  | .inc => [({ s with count := s.count + 1 }, .prod id .send cur script)]
   | .send =>
     if s.queue.length < s.qsize then
       [({ s with queue := s.queue ++ [cur], snt := upd s.snt cur (s.snt cur + 1) }, .prod id .ret cur script)]
     else []
-  | .ret => [(emit (.enqRet id cur) s, .prod id .idle cur script)]
+  | .undo => []
+  | _ => stepProd s id pc cur script
 
 def stepStop (s : St) (id : Nat) (pc : SPc) : List (St × Thread) :=
   match pc with
@@ -137,7 +163,7 @@ def stepStop (s : St) (id : Nat) (pc : SPc) : List (St × Thread) :=
   | .lock => if s.mu then [] else [({ s with mu := true }, .stopper id .load)]
   | .load => if s.running then [(s, .stopper id .store)] else [(s, .stopper id .unlock)]
   | .store =>
-    [({ s with running := false, stopped := true, raced := s.raced || decide (0 < s.win) }, .stopper id .wait)]
+    [({ s with running := false, stopped := true }, .stopper id .wait)]
   | .wait => if s.wg = 0 then [({ s with waited := true }, .stopper id .unlock)] else []
   | .unlock => [({ s with mu := false }, .stopper id .ret)]
   | .ret => [(emit (.stopRet id) s, .stopper id .fin)]
@@ -209,6 +235,13 @@ def step (s : St) : Thread → List (St × Thread)
 
 def sys : Sys St Thread := ⟨step⟩
 
+def stepOld (s : St) : Thread → List (St × Thread)
+  | .prod id pc cur script => stepProdOld s id pc cur script
+  | t => step s t
+
+/-- the protocol of the code before the Enqueue repair -/
+def sysOld : Sys St Thread := ⟨stepOld⟩
+
 def initSt (q b : Nat) : St := { qsize := q, bsize := b }
 
 /-- Initial thread states: every call still to be made. -/
@@ -242,26 +275,55 @@ def witnessThreads (p : Nat) (objOf : Nat → Nat) : List Thread :=
 
 def rep (i n : Nat) : List (Nat × Nat) := List.replicate n (i, 0)
 
-/-- `window`: every producer runs up to the yield point (the first one starts the writer on the way: 11
-steps, the others 3), Stop runs to completion (4 steps up to its Wait, the writer's 4 steps to exit, 3 steps), then the
-producers finish one after the other (4 steps each; a blocked send is a no-op of `runSched`). -/
-def windowSched (p : Nat) : List (Nat × Nat) :=
+/-! Old code.  `window`: every producer runs up to the yield point (the first one starts the writer on the
+way: 11 steps, the others 3), Stop runs to completion (4 steps up to its Wait, the writer's 4 steps to exit,
+3 steps), then the producers finish one after the other (4 steps each; a blocked send ends `runSched`). -/
+def oldWindowSched (p : Nat) : List (Nat × Nat) :=
   rep 0 11 ++ ((List.range (p - 1)).map (fun i => rep (i + 1) 3)).flatten
     ++ rep p 4 ++ rep (p + 1) 4 ++ rep p 3
     ++ ((List.range p).map (fun i => rep i 4)).flatten
 
-/-- `window-dup`: producer 0 up to and including its successful flag test-and-set (12 steps), producer 1
-enqueues the same object completely (finds it scheduled: 5 steps), Stop completes, producer 0 finishes. -/
-def windowDupSched : List (Nat × Nat) :=
+/-- Old code, `window-dup`: producer 0 up to and including its successful flag test-and-set (12 steps),
+producer 1 enqueues the same object completely (finds it scheduled: 5 steps), Stop completes, producer 0
+finishes. -/
+def oldWindowDupSched : List (Nat × Nat) :=
   rep 0 12 ++ rep 1 5 ++ rep 2 4 ++ rep 3 4 ++ rep 2 3 ++ rep 0 3
 
-def stuckProducers (c : Cfg St Thread) : List Nat :=
+/-! Repaired code, the same forced schedules.  `window` / `window-block`: every producer up to the yield
+point (12 resp. 4 steps: the counter increment comes first), Stop up to its Wait (4), the writer finds the
+counter non-zero and waits in its select (3); then producer i finishes (flag, send, return: 3 steps) and the
+writer takes its object (receive, reset, decrement, BatchWrite — batch size 1 — commit, Done, end of commit:
+7 steps, back at the loop condition); finally the writer leaves the loop (via the non-zero counter test the
+first p-1 times) and Stop returns. -/
+def windowSched (p : Nat) : List (Nat × Nat) :=
+  rep 0 12 ++ ((List.range (p - 1)).map (fun i => rep (i + 1) 4)).flatten
+    ++ rep p 4 ++ rep (p + 1) 3
+    ++ ((List.range p).map (fun i => rep i 3 ++ rep (p + 1) 7 ++ (if i + 1 < p then rep (p + 1) 2 else []))).flatten
+    ++ rep (p + 1) 3 ++ rep p 3
+
+/-- Repaired code, `window-dup`: producer 0 through its successful flag test-and-set (13 steps), producer 1
+enqueues the same object (counts, passes the check, finds it scheduled, un-counts, returns: 7 steps), Stop up
+to its Wait, the writer waits (counter is 1), producer 0 sends and returns, the writer writes, Stop returns. -/
+def windowDupSched : List (Nat × Nat) :=
+  rep 0 13 ++ rep 1 7 ++ rep 2 4 ++ rep 3 3 ++ rep 0 2 ++ rep 3 7 ++ rep 3 3 ++ rep 2 3
+
+def stuckProducers (S : Sys St Thread) (c : Cfg St Thread) : List Nat :=
   c.2.filterMap (fun t => match t with
-    | .prod id pc _ _ => if pc ≠ .idle ∧ (step c.1 t).isEmpty then some id else none
+    | .prod id pc _ _ => if pc ≠ .idle ∧ (S.step c.1 t).isEmpty then some id else none
     | _ => none)
 
-def renderTrace (c : Cfg St Thread) : String :=
-  ",".intercalate (c.1.tr.reverse.map Event.render ++ (stuckProducers c).map (fun p => s!"bl.{p}"))
+/-- A trace per participant (producers, flag test-and-sets, Stop, writer): what a forced schedule determines. -/
+def projections (S : Sys St Thread) (c : Cfg St Thread) (p : Nat) : String :=
+  let tr := c.1.tr.reverse
+  let prod (i : Nat) : String :=
+    s!"P{i}:" ++ ",".intercalate ((tr.filter (fun e => match e with
+      | .enqCall q _ => q == i | .hook q => q == i | .enqRet q _ => q == i | _ => false)).map Event.render
+      ++ ((stuckProducers S c).filter (· == i)).map (fun q => s!"bl.{q}"))
+  let grp (name : String) (f : Event → Bool) : String := name ++ ",".intercalate ((tr.filter f).map Event.render)
+  "|".intercalate ((List.range p).map prod ++
+    [grp "F:" (fun e => match e with | .schedNew _ => true | .schedDup _ => true | _ => false),
+     grp "S:" (fun e => match e with | .stopCall _ => true | .stopRet _ => true | _ => false),
+     grp "W:" (fun e => match e with | .reset _ => true | .write _ _ => true | .commit => true | .done _ => true | _ => false)])
 
 def kvArg (k : String) (ws : List String) : Nat :=
   match ws.filterMap (fun w => if w.startsWith (k ++ "=") then (w.drop (k.length + 1)).toNat? else none) with
@@ -272,9 +334,9 @@ def modelLine (ws : List String) : String :=
   let q := kvArg "q" ws
   let p := kvArg "p" ws
   match ws with
-  | "window" :: _ => renderTrace (runSched sys (initSt q 1, witnessThreads p (fun _ => 0)) (windowSched p))
-  | "window-block" :: _ => renderTrace (runSched sys (initSt q 1, witnessThreads p id) (windowSched p))
-  | "window-dup" :: _ => renderTrace (runSched sys (initSt q 1, witnessThreads 2 (fun _ => 0)) windowDupSched)
+  | "window" :: _ => projections sys (runSched sys (initSt q 1, witnessThreads p (fun _ => 0)) (windowSched p)) p
+  | "window-block" :: _ => projections sys (runSched sys (initSt q 1, witnessThreads p id) (windowSched p)) p
+  | "window-dup" :: _ => projections sys (runSched sys (initSt q 1, witnessThreads 2 (fun _ => 0)) windowDupSched) 2
   | _ => "unknown-witness"
 
 def showVerdict (final : Bool) : Option Why → String
